@@ -86,8 +86,18 @@ def gen_world(rng):
         if sub not in seen:
             seen.add(sub)
             funcs.append(dict(sub=sub, first=None, nparams=0, ret=None, prefix='bar'))
-    return dict(types=types, funcs=funcs, constants=[('FOO_MAJOR', 'MAJOR'), ('BAR_MINOR', 'MINOR'), ('FOO_EXT_SCALE', 'EXT_SCALE')],
-                bar_types=[('BarGadget', 'Gadget')], tag_first=[n for n, k, r, ps in types if k != 'TEnum' and rng.random() < 0.4])
+    # the second symbol prefix is the default spelling of the identifier prefix Bar ("bar") or an explicit one that differs ("br")
+    barp = rng.choice(['bar', 'bar', 'br'])
+    for f in funcs:
+        if f.get('prefix') == 'bar':
+            f['prefix'] = barp
+    if rng.random() < 0.5:
+        # annotated (method), but the first parameter is a type of an included namespace: it stays a function of this one
+        funcs.append(dict(sub='attach_object', first=('!GObject', 1), nparams=2, ret=None, ann_method=True, foreign_method=True))
+    consts = [('FOO_MAJOR', 'MAJOR'), ('%s_MINOR' % barp.upper(), 'MINOR'), ('FOO_EXT_SCALE', 'EXT_SCALE')]
+    return dict(types=types, funcs=funcs, constants=consts, barp=barp, not_described=['BAR_LEGACY'] if barp == 'br' else ['BR_LEGACY'],
+                bar_types=[('BarGadget', 'Gadget')], tag_first=[n for n, k, r, ps in types if k != 'TEnum' and rng.random() < 0.4],
+                tag_only=rng.random() < 0.6)
 
 
 def build(world, S):
@@ -116,6 +126,15 @@ def build(world, S):
                 dump.append('<boxed name="%s" get-type="%s"/>' % (cname, gt))
         line += 10
     dump.append('</dump>')
+    if world.get('tag_only'):
+        # structures and unions declared by tag only; the first one's tag belongs to no namespace and cannot be stripped
+        for kind, tag in ((S.CTYPE_STRUCT, 'foo_io_vec'), (S.CTYPE_STRUCT, 'FooPoint'), (S.CTYPE_UNION, 'FooValue')):
+            syms.append(S.FS(S.CSYMBOL_TYPE_STRUCT if kind == S.CTYPE_STRUCT else S.CSYMBOL_TYPE_UNION, tag,
+                             base_type=S.FT(kind, tag, child_list=[S.FS(S.CSYMBOL_TYPE_MEMBER, 'x', base_type=S.td('gint'), line=line + 1)]), line=line))
+            line += 3
+    for cn in world.get('not_described', []):
+        syms.append(S.const(cn, base=S.td('gint'), line=line, const_int=4))
+        line += 1
     for cn, _ in world.get('constants', []):
         syms.append(S.const(cn, base=S.td('gint'), line=line, const_int=3))
         line += 1
@@ -184,7 +203,7 @@ def main(tier, seed):
         syms, dump = build(w, S)
         try:
             r = S.run(syms, comments=w.get('comments', ()), includes=['GLib', 'GObject', 'Gio', 'FooExt'], dump=dump, warnings=False,
-                      identifier_prefixes=['Foo', 'Bar'], symbol_prefixes=['foo', 'bar'])
+                      identifier_prefixes=['Foo', 'Bar'], symbol_prefixes=['foo', w.get('barp', 'bar')])
         except (Exception, SystemExit) as e:      # noqa
             ck.failing_input('the scanner fails on a generated namespace: %r' % (e,), dict(world=w))
             continue
@@ -217,6 +236,11 @@ def main(tier, seed):
                 continue
             if not occ:
                 ck.failing_input('a public function of the namespace is missing from the GIR', dict(case, symbol=cid))
+            if f.get('foreign_method'):
+                if sorted(occ) != [('', 'function', f['sub'], None)]:
+                    ck.failing_input('a function annotated (method) whose first parameter belongs to an included namespace is not described '
+                                     'exactly once, as a function of this namespace', dict(case, symbol=cid), detail=occ)
+                continue
             if f.get('ann_method') and sorted(occ) != [(f['first'][0], 'method', f['sub'], None)]:
                 ck.failing_input('a function annotated (method) is not described exactly once, as a method of its first parameter\'s type under '
                                  'its own name', dict(case, symbol=cid), detail=occ)
@@ -233,6 +257,16 @@ def main(tier, seed):
                     if f['ret'] is None or f['ret'] not in anc:
                         ck.failing_input('a function is a constructor of a type it does not return (nor an ancestor of it)',
                                          dict(case, symbol=cid), detail=occ)
+        if w.get('tag_only'):
+            for tag, local, kind in (('FooPoint', 'Point', 'record'), ('FooValue', 'Value', 'union')):
+                els = [el for el in ns if el.get(S.CNS + 'type') == tag]
+                if len(els) != 1 or els[0].get('name') != local or els[0].tag != S.CORE + kind:
+                    ck.failing_input('a structure or union declared by its tag only is not described exactly once under its stripped name',
+                                     dict(case, tag=tag, before_it='struct foo_io_vec { gint x; };'), detail=[e.attrib for e in els])
+        for cn in w.get('not_described', []):
+            if [el for el in ns.findall(S.CORE + 'constant') if el.get(S.CNS + 'type') == cn]:
+                ck.failing_input('a constant that carries none of the namespace\'s symbol prefixes is described', dict(case, constant=cn,
+                                 symbol_prefixes=['foo', w.get('barp')]))
         # constants and types under either prefix of the namespace are described once, by their stripped name
         for cn, local in w.get('constants', []):
             els = [el for el in ns.findall(S.CORE + 'constant') if el.get(S.CNS + 'type') == cn]
